@@ -72,11 +72,15 @@ func n2config(c *explore.Chooser) (n2.EmuConfig, refamf.Config) {
 	case 3:
 		id = []byte{0x0a, 0x00, 0x04, 0x0c}[:(bits+7)/8]
 	}
-	if bits%8 != 0 { // a configured id is written left aligned; unused bits zero
+	written := append([]byte{}, id...) // what the file says
+	if bits%8 != 0 { // the id is the first `bits` bits, left aligned; what the file has in the unused bits of the last octet is not part of it
 		id = append([]byte{}, id...)
 		id[len(id)-1] &= 0xff << uint(8-bits%8)
+		if c.Pick("gnb_id-unused-bits-in-the-file", 2) == 1 {
+			written = id // default: the file has set bits there (the shipped 00 01 02 with a 22-bit length does); alternative: written clean
+		}
 	}
-	e.GnbID = string(id)
+	e.GnbID = string(written)
 	e.GnbName = []string{"open5gs", "g", strings.Repeat("n", 150), " cn=gnb01,o=upm (lab+1/2:a?) ", "A'B.C-D"}[c.Pick("gnb_name", 5)]
 	a := refamf.Config{IMSI: e.IMSI, MCC: e.MCC, MNC: e.MNC, K: k, OPc: opc, GnbID: id, GnbBits: uint64(bits), GnbName: e.GnbName,
 		GnbGtpIP: []byte{192, 168, 61, 3}, SST: 1, SD: []byte{1, 2, 3}, MaxUE: 32}
